@@ -29,7 +29,11 @@ def generate(G):
     hist("clear_all_then_pass", "MulAddShare", two, ["Back(1)", "Replace(0)", "ClearMut(1)", "Back(1)"], "thorough",
          "a pass after everything was cleared behaves like a first pass")
     hist("bcast_twice", "Mul", [L([2]), L([2, 2])], ["Back(0)", "Back(0)"], "thorough", "broadcast operand, two passes", unwind=10)
-    hist("untracked_leaf", "MulAddShare", [L([2]), L([2], tracked=False)], ["Back(1)", "Back(0)", "Back(1)"], "thorough",
+    hist("untracked_leaf", "MulAddShare", [L([2]), L([2], tracked=False)], ["Back(1)", "Back(0)", "Back(1)"], "quick",
          "one leaf untracked")
+    hist("start_tracking_twice", "MulAddShare", [G.leaf_st([2]), L([2])], ["Back(1)", "Back(1)"], "quick",
+         "a leaf made trackable by start_tracking() (no keep flag), the same result twice")
+    hist("start_tracking_two_results", "TwoRoots", [G.leaf_st([2]), G.leaf_st([2])], ["Back(1)", "Back(2)"], "thorough",
+         "start_tracking() leaves shared by two results")
     hist("square_twice", "Square", [L([2])], ["Back(0)", "Back(0)"], "quick", "self-product differentiated twice")
     hist("no_probe_public_api", "MulAddShare", two, ["Back(1)", "Back(0)", "Back(1)"], "quick", "public API only (no hook probes)", probe=False)
